@@ -397,6 +397,7 @@ package node
 //@   requires [called_from_callback] owner(p) == me && fin(p) == 0
 //@   ensures [state_restored_or_terminated] result.1 != gen.ErrProcessTerminated && result.1 != gen.ErrNotAllowed ==> owner(p) == me
 //@   ensures [still_owner] owner(p) == me
+//@   ensures [reply_is_for_this_request] (result.0 == nil && (result.1 == gen.ErrTimeout || result.1 == gen.ErrProcessTerminated || result.1 == gen.ErrNotAllowed)) || (exists r response :: received(p.response, r) && r.ref == ref && r.message == result.0 && r.err == result.1)
 
 // by-alias route: the alias may name a meta process of p (then the message goes to the meta's own
 // main queue and the meta is woken) or p itself (same clauses as the by-id route, incl. fallback)
@@ -427,3 +428,62 @@ package node
 //@   ensures [refused_nothing_pushed] result != nil ==> (forall q lib.QueueMPSC :: pushed(q) == old(pushed(q))) && (forall x *process :: woken(x) == old(woken(x)))
 //@   ensures [message_untouched] message != nil ==> message.From == old(message.From) && message.Ref == old(message.Ref) && message.Message == old(message.Message) && message.Type == old(message.Type)
 //@   ensures [unknown_worker] !smHas(p.node.processes, any(to)) ==> result == gen.ErrProcessUnknown
+
+// C07: a reply is handed to the waiting caller without blocking, at most once per SendResponse, carrying
+// exactly the reference and payload the replier gave; when nobody can take it the replier is told so.
+//@ iface gen.Connection.SendResponse
+//@ iface gen.Connection.SendResponseError
+//@ func (n *node) RouteSendResponse
+//@   props C07
+//@   requires [tables] processesWF(n)
+//@   ensures [handed_over_once_with_its_ref] result == nil && to.Node == n.name ==> smHas(n.processes, any(to)) && sentcount(procOf(n, to).response) == old(sentcount(procOf(n, to).response)) + 1 && sent(procOf(n, to).response, response{message, nil, options.Ref})
+//@   ensures [only_the_addressee] forall c chan response :: (result == nil && to.Node == n.name && c == procOf(n, to).response) || sentcount(c) == old(sentcount(c))
+//@   ensures [ignored_is_reported] to.Node == n.name && result != nil ==> (forall c chan response :: sentcount(c) == old(sentcount(c)))
+//@ func (n *node) RouteSendResponseError
+//@   props C07
+//@   requires [tables] processesWF(n)
+//@   ensures [handed_over_once_with_its_ref] result == nil && to.Node == n.name ==> smHas(n.processes, any(to)) && sentcount(procOf(n, to).response) == old(sentcount(procOf(n, to).response)) + 1 && sent(procOf(n, to).response, response{nil, err, options.Ref})
+//@   ensures [only_the_addressee] forall c chan response :: (result == nil && to.Node == n.name && c == procOf(n, to).response) || sentcount(c) == old(sentcount(c))
+//@   ensures [ignored_is_reported] to.Node == n.name && result != nil ==> (forall c chan response :: sentcount(c) == old(sentcount(c)))
+
+// C07, caller side: every synchronous request draws a new reference from the node counter, sends the
+// request under it and then waits for exactly that reference; the replier's SendResponse hands over the
+// reference it was given, unchanged, together with its own pid and the payload.
+//@ func (p *process) isStateRW
+//@   trusted
+//@ func (n *node) RouteCallAlias
+//@   trusted
+//@ func (p *process) CallPID
+//@   props C07
+//@   protocol procState at p
+//@   requires p.node != nil
+//@   requires [tables] processesWF(p.node) && (forall k any :: smHas(p.node.processes, k) ==> mailboxWF(smVal(p.node.processes, k).(*process)))
+//@   requires [called_from_callback] owner(p) == me && fin(p) == 0
+//@   at call RouteCallPID assert [request_under_new_ref] options.Ref.ID[0] == refw0(p.node.uniqID) && options.Ref.ID[1] == refw1(p.node.uniqID) && options.Ref.ID[2] == 0 && p.node.uniqID == old(p.node.uniqID) + 1 && from == p.pid && to == caller_to && message == caller_message
+//@   at call waitResponse assert [waits_for_the_ref_it_sent] ref == options.Ref && ref.ID[0] == refw0(old(p.node.uniqID) + 1) && ref.ID[1] == refw1(old(p.node.uniqID) + 1)
+//@ func (p *process) CallProcessID
+//@   props C07
+//@   protocol procState at p
+//@   requires p.node != nil
+//@   requires [tables] processesWF(p.node) && namesWF(p.node) && (forall k any :: smHas(p.node.processes, k) ==> mailboxWF(smVal(p.node.processes, k).(*process)))
+//@   requires [called_from_callback] owner(p) == me && fin(p) == 0
+//@   at call RouteCallProcessID assert [request_under_new_ref] options.Ref.ID[0] == refw0(p.node.uniqID) && options.Ref.ID[1] == refw1(p.node.uniqID) && options.Ref.ID[2] == 0 && p.node.uniqID == old(p.node.uniqID) + 1 && from == p.pid && to == caller_to && message == caller_message
+//@   at call waitResponse assert [waits_for_the_ref_it_sent] ref == options.Ref && ref.ID[0] == refw0(old(p.node.uniqID) + 1) && ref.ID[1] == refw1(old(p.node.uniqID) + 1)
+//@ func (p *process) CallAlias
+//@   props C07
+//@   protocol procState at p
+//@   requires p.node != nil
+//@   requires [tables] true
+//@   requires [called_from_callback] owner(p) == me && fin(p) == 0
+//@   at call RouteCallAlias assert [request_under_new_ref] options.Ref.ID[0] == refw0(p.node.uniqID) && options.Ref.ID[1] == refw1(p.node.uniqID) && options.Ref.ID[2] == 0 && p.node.uniqID == old(p.node.uniqID) + 1 && from == p.pid && to == caller_to && message == caller_message
+//@   at call waitResponse assert [waits_for_the_ref_it_sent] ref == options.Ref && ref.ID[0] == refw0(old(p.node.uniqID) + 1) && ref.ID[1] == refw1(old(p.node.uniqID) + 1)
+//@ func (p *process) SendResponse
+//@   props C07
+//@   requires p.node != nil
+//@   requires [tables] processesWF(p.node)
+//@   at call RouteSendResponse assert [reply_carries_the_given_ref] options.Ref == ref && from == p.pid && to == caller_to && message == caller_message
+//@ func (p *process) SendResponseError
+//@   props C07
+//@   requires p.node != nil
+//@   requires [tables] processesWF(p.node)
+//@   at call RouteSendResponseError assert [reply_carries_the_given_ref] options.Ref == ref && from == p.pid && to == caller_to && err == caller_err
